@@ -199,7 +199,7 @@ def run_check(prop, tier='quick', seed=0, replay=None):
     cross_n, cross_ok, cross_detail = 0, True, ''
     if not harness_error and mcases:
         try:
-            lim = 200 if tier == 'quick' else 400
+            lim = getattr(prop, 'cross_limit', 200) * (1 if tier == 'quick' else 2)
             cross_n, cross_ok, cross_detail = model.coq_crosscheck(
                 mcases, model_outs, os.path.join(ROOT, 'build', 'cross', pid), limit=lim,
                 budget=250000 if tier == 'quick' else 1500000)
